@@ -357,6 +357,17 @@ Proof.
     match goal with |- context [val_le ?x ?y] => destruct (val_le x y) end; mstep Hi;
     try fin; rewrite <- En, set_nth_same; fin.
 Qed.
+
+(* finalize parks store[handle] on the node; __call__ returns the parked value: Eval's clause EAgg h = nth h slots *)
+Lemma finalize_call_src : forall (i kd : nat) o v ctx (slots : list value),
+  (i < length slots)%nat ->
+  call_method call_ref p1 aggm_EvalAggregator_finalize (aflds i kd o v) [PList (map PV slots)] =
+    Ok (aflds i kd o (PV (nth i slots VNull)), PList (map PV slots)) /\
+  call_method call_ref p1 aggm_EvalAggregator_call (aflds i kd o (PV (nth i slots VNull))) [ctx] =
+    Ok (aflds i kd o (PV (nth i slots VNull)), PV (mev [] slots (EAgg i))).
+Proof.
+  intros i kd o v ctx slots Hi. split; [|reflexivity]. mstep Hi. reflexivity.
+Qed.
 End Methods.
 
 (* ================================================================== part 3: the scan loop *)
@@ -708,3 +719,264 @@ Proof.
   eexists. exists vals'. split; [reflexivity|]. cbn [locals]. auto.
 Qed.
 End Scan.
+
+(* ================================================================== linking parts 1 and 3 *)
+Fixpoint mk_nodes_from (i : nat) (ds : list (nat * nat * pv)) (vals : list pv) : list pv :=
+  match ds, vals with
+  | (c, kd, o) :: ds', v :: vals' => anode c i kd o v :: mk_nodes_from (S i) ds' vals'
+  | _, _ => []
+  end.
+
+Definition agg_class (f : aggf) (c : nat) : Prop :=
+  match f with
+  | ACountStar => c = 0 | ACount => c = 1 | ASum _ => c = 2 \/ c = 3
+  | AFirst => c = 4 | ALast => c = 5 | AMin => c = 6 | AMax => c = 7
+  end%nat.
+Definition is_minmax (a : agg) : bool := match afun a with AMin | AMax => true | _ => false end.
+
+Lemma set_nth_app {A} (pre : list A) x y rest : set_nth (length pre) y (pre ++ x :: rest)%list = (pre ++ y :: rest)%list.
+Proof. induction pre as [|p t IH]; cbn; [reflexivity|]. rewrite IH. reflexivity. Qed.
+Lemma nth_app_len {A} (pre : list A) x rest d : nth (length pre) (pre ++ x :: rest)%list d = x.
+Proof. induction pre as [|p t IH]; cbn; [reflexivity|exact IH]. Qed.
+
+Section Link.
+Variable call_ref : nat -> list pv -> pv.
+Variable ctx_of : row -> pv.
+Variable q : query.
+Variable table : list row.
+Notation mev := Verif.Model.Eval.eval.
+Notation p1 := (prims1 call_ref alloc_init alloc_allocate alloc_create_store).
+Notation p2 := (prims2 call_ref alloc_init alloc_allocate alloc_create_store classes).
+
+Definition dtype_ok (a : agg) (kd : nat) : Prop :=
+  match afun a with
+  | ACountStar | ACount | ASum _ => call_ref kd [] = PV (agg_init a) /\ is_err (agg_init a) = false
+  | _ => True
+  end.
+
+(* an aggregate node object of the right class for aggregate a: its dtype() is the zero the sum starts from, its
+   operand is the compiled argument expression *)
+Definition node_ok (a : agg) (d : nat * nat * pv) : Prop :=
+  agg_class (afun a) (fst (fst d)) /\ dtype_ok a (snd (fst d)) /\
+  (afun a <> ACountStar -> forall r, In r table -> operand_on call_ref ctx_of r (snd d) (aarg a)).
+
+Definition slot_good (a : agg) (cur : value) : Prop :=
+  is_minmax a = true -> forall r, In r table -> comparable (mev r [] (aarg a)) cur.
+Definition good (sl : list value) : Prop := Forall2 slot_good (q_aggs q) sl.
+
+Lemma p2_protocol name c cl f i kd o v rest :
+  nth_error classes c = Some cl -> protocol_method name cl = Some f ->
+  p2 name (anode c i kd o v :: rest) =
+  bind (call_method call_ref p1 f (aflds i kd o v) rest) (fun p => Ok (PTuple [node_of_fields c (fst p); snd p])).
+Proof.
+  intros H1 H2. unfold prims2, anode, node_pv, aflds, PInt. rewrite Nat2Z.id, H1, H2.
+  destruct (call_method _ _ _ _ _) as [[flds r]| |]; reflexivity.
+Qed.
+
+Lemma mc_node m c i kd o v args :
+  method_call p2 m (anode c i kd o v) args =
+  bind (p2 ("method:" ++ m) (anode c i kd o v :: args))
+       (fun r => match r with PTuple [recv'; x] => Ok (recv', x) | _ => Stuck end).
+Proof. unfold method_call, anode, node_pv. destruct args as [|a [|b t]]; reflexivity. Qed.
+
+Lemma node_init_p2 : forall a c kd o i v (sl : list value),
+  node_ok a (c, kd, o) -> (i < length sl)%nat ->
+  exists v', method_call p2 "initialize" (anode c i kd o v) [slots_pv sl] =
+             Ok (anode c i kd o v', slots_pv (set_nth i (agg_init a) sl)).
+Proof.
+  intros a c kd o i v sl [Hc [Hd _]] Hi. cbn [fst snd] in *. rewrite mc_node. cbn [String.append].
+  unfold agg_class, dtype_ok, agg_init in *. unfold slots_pv.
+  destruct (afun a) eqn:Ef.
+  - subst c. destruct Hd as [Hd He]. exists PNone.
+    rewrite (p2_protocol _ 0%nat class_Count aggm_EvalAggregator_initialize) by reflexivity.
+    rewrite (initialize_default_src call_ref i kd o v sl _ Hi Hd He). reflexivity.
+  - subst c. destruct Hd as [Hd He]. exists PNone.
+    rewrite (p2_protocol _ 1%nat class_CountArg aggm_EvalAggregator_initialize) by reflexivity.
+    rewrite (initialize_default_src call_ref i kd o v sl _ Hi Hd He). reflexivity.
+  - destruct Hd as [Hd He]. exists PNone. destruct Hc as [-> | ->].
+    + rewrite (p2_protocol _ 2%nat class_SumInt aggm_EvalAggregator_initialize) by reflexivity.
+      rewrite (initialize_default_src call_ref i kd o v sl _ Hi Hd He). reflexivity.
+    + rewrite (p2_protocol _ 3%nat class_SumDecimal aggm_EvalAggregator_initialize) by reflexivity.
+      rewrite (initialize_default_src call_ref i kd o v sl _ Hi Hd He). reflexivity.
+  - subst c. exists v. rewrite (p2_protocol _ 4%nat class_First aggm_First_initialize) by reflexivity.
+    rewrite (initialize_none_src call_ref _ i kd o v sl (or_introl eq_refl) Hi). reflexivity.
+  - subst c. exists v. rewrite (p2_protocol _ 5%nat class_Last aggm_Last_initialize) by reflexivity.
+    rewrite (initialize_none_src call_ref _ i kd o v sl (or_intror (or_introl eq_refl)) Hi). reflexivity.
+  - subst c. exists v. rewrite (p2_protocol _ 6%nat class_Min aggm_Min_initialize) by reflexivity.
+    rewrite (initialize_none_src call_ref _ i kd o v sl (or_intror (or_intror (or_introl eq_refl))) Hi). reflexivity.
+  - subst c. exists v. rewrite (p2_protocol _ 7%nat class_Max aggm_Max_initialize) by reflexivity.
+    rewrite (initialize_none_src call_ref _ i kd o v sl (or_intror (or_intror (or_intror eq_refl))) Hi). reflexivity.
+Qed.
+
+Lemma node_update_p2 : forall a c kd o i v (sl : list value) r,
+  node_ok a (c, kd, o) -> (i < length sl)%nat -> In r table -> slot_good a (nth i sl VNull) ->
+  method_call p2 "update" (anode c i kd o v) [slots_pv sl; ctx_of r] =
+  Ok (anode c i kd o v, slots_pv (set_nth i (agg_update a r (nth i sl VNull)) sl)).
+Proof.
+  intros a c kd o i v sl r [Hc [_ Hop]] Hi Hr Hg. cbn [fst snd] in *. rewrite mc_node. cbn [String.append].
+  unfold agg_class, slot_good, is_minmax in *. unfold slots_pv.
+  destruct a as [f e]. cbn [afun aarg] in *.
+  destruct f.
+  - subst c. rewrite (p2_protocol _ 0%nat class_Count aggm_Count_update) by reflexivity.
+    rewrite (update_count_src call_ref ctx_of i kd o v sl r e Hi). reflexivity.
+  - subst c. rewrite (p2_protocol _ 1%nat class_CountArg aggm_CountArg_update) by reflexivity.
+    rewrite (update_countarg_src call_ref ctx_of i kd o v sl r e Hi (Hop ltac:(discriminate) r Hr)). reflexivity.
+  - destruct Hc as [-> | ->].
+    + rewrite (p2_protocol _ 2%nat class_SumInt aggm_SumInt_update) by reflexivity.
+      rewrite (update_sum_src call_ref ctx_of _ i kd o v sl r e zero (or_introl eq_refl) Hi (Hop ltac:(discriminate) r Hr)). reflexivity.
+    + rewrite (p2_protocol _ 3%nat class_SumDecimal aggm_SumDecimal_update) by reflexivity.
+      rewrite (update_sum_src call_ref ctx_of _ i kd o v sl r e zero (or_intror eq_refl) Hi (Hop ltac:(discriminate) r Hr)). reflexivity.
+  - subst c. rewrite (p2_protocol _ 4%nat class_First aggm_First_update) by reflexivity.
+    rewrite (update_first_src call_ref ctx_of i kd o v sl r e Hi (Hop ltac:(discriminate) r Hr)). reflexivity.
+  - subst c. rewrite (p2_protocol _ 5%nat class_Last aggm_Last_update) by reflexivity.
+    rewrite (update_last_src call_ref ctx_of i kd o v sl r e Hi (Hop ltac:(discriminate) r Hr)). reflexivity.
+  - subst c. rewrite (p2_protocol _ 6%nat class_Min aggm_Min_update) by reflexivity.
+    rewrite (update_min_src call_ref ctx_of i kd o v sl r e Hi (Hop ltac:(discriminate) r Hr) (Hg eq_refl r Hr)). reflexivity.
+  - subst c. rewrite (p2_protocol _ 7%nat class_Max aggm_Max_update) by reflexivity.
+    rewrite (update_max_src call_ref ctx_of i kd o v sl r e Hi (Hop ltac:(discriminate) r Hr) (Hg eq_refl r Hr)). reflexivity.
+Qed.
+
+Lemma init_fold : forall (aggs : list agg) ds, Forall2 node_ok aggs ds ->
+  forall i (pre rest : list value) vals, length pre = i -> length rest = length aggs -> length vals = length aggs ->
+  exists vals', length vals' = length aggs /\
+    node_fold (fun nd th => method_call p2 "initialize" nd [th]) (mk_nodes_from i ds vals) (slots_pv (pre ++ rest)) =
+    Ok (mk_nodes_from i ds vals', slots_pv (pre ++ map agg_init aggs)).
+Proof.
+  induction 1 as [|a [[c kd] o] aggs ds Hn Hns IH]; intros i pre rest vals Hp Hr Hv.
+  - destruct rest; [|discriminate]. destruct vals; [|discriminate]. exists []. split; reflexivity.
+  - destruct rest as [|x rest]; [discriminate|]. destruct vals as [|v vals]; [discriminate|].
+    cbn [length] in Hr, Hv. injection Hr as Hr. injection Hv as Hv.
+    cbn [mk_nodes_from node_fold].
+    destruct (node_init_p2 a c kd o i v (pre ++ x :: rest)%list Hn) as [v' E].
+    { rewrite app_length. cbn [length]. lia. }
+    rewrite E. cbn [bind fst snd]. subst i. rewrite set_nth_app.
+    destruct (IH (S (length pre)) (pre ++ [agg_init a])%list rest vals) as [vals' [Hv' E']]; try assumption.
+    { rewrite app_length. cbn [length]. lia. }
+    rewrite <- app_assoc in E'. cbn [app] in E'. rewrite E'. cbn [bind fst snd].
+    exists (v' :: vals'). split; [cbn [length]; congruence|]. cbn [map]. rewrite <- app_assoc. reflexivity.
+Qed.
+
+Lemma upd_fold : forall r, In r table -> forall (aggs : list agg) ds, Forall2 node_ok aggs ds ->
+  forall i (pre rest : list value) vals, length pre = i -> length vals = length aggs -> Forall2 slot_good aggs rest ->
+    node_fold (fun nd th => method_call p2 "update" nd [th; ctx_of r]) (mk_nodes_from i ds vals) (slots_pv (pre ++ rest)) =
+    Ok (mk_nodes_from i ds vals,
+        slots_pv (pre ++ map (fun '(a, cur) => agg_update a r cur) (combine aggs rest))).
+Proof.
+  intros r Hr. induction 1 as [|a [[c kd] o] aggs ds Hn Hns IH]; intros i pre rest vals Hp Hv Hg.
+  - inversion Hg; subst. destruct vals; [|discriminate]. reflexivity.
+  - inversion Hg as [|? x ? rest' Hgx Hgr]; subst. destruct vals as [|v vals]; [discriminate|].
+    cbn [length] in Hv. injection Hv as Hv.
+    cbn [mk_nodes_from node_fold].
+    rewrite (node_update_p2 a c kd o (length pre) v (pre ++ x :: rest')%list r Hn).
+    2:{ rewrite app_length. cbn [length]. lia. }
+    2:{ exact Hr. }
+    2:{ rewrite nth_app_len. exact Hgx. }
+    cbn [bind fst snd]. rewrite nth_app_len, set_nth_app.
+    assert (Hl : length (pre ++ [agg_update a r x])%list = S (length pre)) by (rewrite app_length; cbn [length]; lia).
+    pose proof (IH (S (length pre)) (pre ++ [agg_update a r x])%list rest' vals Hl Hv Hgr) as E'.
+    rewrite <- !app_assoc in E'. cbn [app] in E'. rewrite E'.
+    cbn [bind fst snd combine map]. reflexivity.
+Qed.
+
+Lemma prims2_other name args :
+  (forall cl, protocol_method name cl = None) ->
+  p2 name args = p1 name args.
+Proof.
+  intros H. unfold prims2.
+  destruct args as [|a rest]; [reflexivity|]. destruct a as [| |l| |]; try reflexivity.
+  destruct l as [|x0 l]; try reflexivity. destruct x0 as [v0| | | |]; try reflexivity. destruct v0; try reflexivity.
+  destruct l as [|h [|d [|o [|v [|? ?]]]]]; try reflexivity.
+  destruct (nth_error classes (Z.to_nat z)); [rewrite H|]; reflexivity.
+Qed.
+
+Lemma p2_lo : forall name args, In name lo_names -> p2 name args = prims0 name args.
+Proof.
+  intros name args Hin. cbn in Hin.
+  repeat (destruct Hin as [<-|Hin]; [rewrite prims2_other by (intros cl; reflexivity); reflexivity|]). destruct Hin.
+Qed.
+
+(* values of one typed argument column are pairwise comparable (min / max compare them) *)
+Definition homogeneous : Prop :=
+  forall a, In a (q_aggs q) -> is_minmax a = true ->
+  forall r r', In r table -> In r' table -> comparable (mev r [] (aarg a)) (mev r' [] (aarg a)).
+
+Lemma good_init : good (init_all q).
+Proof.
+  unfold good, init_all. induction (q_aggs q) as [|a t IH]; constructor; [|exact IH].
+  intros Hm r Hr. unfold is_minmax in Hm. unfold agg_init. destruct (afun a); try discriminate; intros _ H; discriminate H.
+Qed.
+
+Lemma good_upd : homogeneous -> forall r sl, In r table -> good sl -> good (upd_all q r sl).
+Proof.
+  unfold homogeneous, good, upd_all. intros Hh r sl Hr.
+  generalize (fun a (H : In a (q_aggs q)) => Hh a H). clear Hh.
+  generalize (q_aggs q) as aggs. intros aggs Hh Hg. induction Hg as [|a cur aggs sl Hs Hg IH]; [constructor|].
+  cbn [combine map]. constructor.
+  - intros Hm r' Hr'. specialize (Hs Hm). pose proof (Hh a (or_introl eq_refl) Hm r' r Hr' Hr) as Hrr.
+    unfold is_minmax in Hm. unfold agg_update.
+    destruct (afun a); try discriminate;
+      (destruct (is_null (mev r [] (aarg a))); [apply Hs; exact Hr'|];
+       match goal with |- context [if ?b then _ else _] => destruct b end; [exact Hrr|apply Hs; exact Hr']).
+  - apply IH. intros a' Ha'. apply Hh. right. exact Ha'.
+Qed.
+
+(* (3, linked) the translated scan part, run with the TRANSLATED protocol methods of the aggregator classes (prims2 over the
+   generated class table), builds Exec.scan_agg *)
+Theorem agg_scan_linked : forall (g : list nat) (ds : list (nat * nat * pv)) (cw qobj : pv) (gks : list nat) vals,
+  Forall2 node_ok (q_aggs q) ds -> homogeneous ->
+  qobj <> PSelf -> p2 "attr:table" [qobj] = Ok (PList (map ctx_of table)) ->
+  where_ok call_ref ctx_of q table (mk_nodes_from 0 ds) cw ->
+  keys_ok call_ref ctx_of q g table (mk_nodes_from 0 ds) gks ->
+  length vals = length (q_aggs q) ->
+  exists s' vals',
+    exec_block call_ref p2
+      {| locals := [("query", qobj); ("c_where", cw); ("c_nonaggregate_exprs", PList (map PRef gks));
+                    ("allocator", alloc_pv (PInt (Z.of_nat (length (q_aggs q)))));
+                    ("c_aggregate_exprs", PList (mk_nodes_from 0 ds vals))]; fields := [] |}
+      (f_body agg_scan) = Ok (Next s') /\
+    lookup "aggregates" (locals s') = Some (dict_pv (scan_agg q g [] table)) /\
+    lookup "context" (locals s') = Some (last (map ctx_of table) PNone) /\
+    length vals' = length (q_aggs q) /\
+    lookup "c_aggregate_exprs" (locals s') = Some (PList (mk_nodes_from 0 ds vals')).
+Proof.
+  intros g ds cw qobj gks vals Hds Hh Hq Htab Hw Hks Hv.
+  apply (agg_scan_src call_ref p2 ctx_of q g table (mk_nodes_from 0 ds)
+           (alloc_pv (PInt (Z.of_nat (length (q_aggs q))))) good); try assumption.
+  - exact p2_lo.
+  - apply alloc_create_store_src.
+  - intros vals0 Hv0.
+    destruct (init_fold (q_aggs q) ds Hds 0%nat [] (repeat VNull (length (q_aggs q))) vals0 eq_refl
+                (repeat_length _ _) Hv0) as [vals' [Hv' E]].
+    exists vals'. split; [exact Hv'|exact E].
+  - intros vals0 r sl Hv0 Hr Hg.
+    apply (upd_fold r Hr (q_aggs q) ds Hds 0%nat [] sl vals0 eq_refl Hv0 Hg).
+  - exact good_init.
+  - apply good_upd. exact Hh.
+Qed.
+End Link.
+
+(* ================================================================== not yet tied (the terms ARE regenerated on every run)
+   Full statements of what is missing, over the same encodings (Model/PrimsAgg.v) and hypotheses as agg_scan_linked:
+
+   (2) agg_split.  For tks the opaque callables of q_targets q, with
+         call_ref k_gca [PRef tk_i] = PTuple [cols_i; PList nodes_i]   (compiler.get_columns_and_aggregates, opaque)
+       exec_block .. {c_target_exprs := PList (map PRef tks); group_indexes := PList (map idx g)} (f_body agg_split)
+       ends with  c_nonaggregate_exprs = PList (map PRef [tk_i | i in g])   (the gks of keys_ok: group_key q g r is
+       exactly the values of these targets in target order) and  c_aggregate_exprs = PList (concat [nodes_i | i not in g])
+       (the ds of node_ok, in the order of q_aggs q).
+
+   (2') agg_alloc.  From c_aggregate_exprs = the nodes with handle None, the translated allocate loop (node_loop with
+       M = "allocate", thread = allocator; alloc_allocate_src per step) ends with allocator = alloc_pv (PInt n) and
+       c_aggregate_exprs = mk_nodes_from 0 ds vals: handle = position - the premise of agg_scan_linked.
+
+   (4) agg_output.  For every store s whose keys have one value per grouped target (true of scan_agg q g [] table),
+       with context = ctx_of ctx (ctx = last table [], the value agg_scan_linked leaves in `context`), targets
+         forall slots, call_ref tk_i [ctx_of ctx; PList (mk_nodes_from 0 ds (map PV slots))] = PV (eval ctx slots e_i), not an error
+       (rule A3: after the finalize loop - node_loop with M = "finalize", finalize_call_src per step - the value parked on
+       node h is slots[h], which is what Eval's clause EAgg h reads), and having_index < length (q_targets q):
+       exec_block .. {aggregates := dict_pv s; rows := PList (map rowl_pv acc); ..} (f_body agg_output)  ends with
+         rows = PList (map rowl_pv (acc ++ Exec.finalize q g ctx s))
+       (`next(key_iter)` = the key cells in order: Exec.out_values; `if not values[having_index]: continue` =
+       Exec.having_ok, desugared by rule A6).
+   Composition: agg_branch = agg_split ++ agg_alloc ++ agg_scan ++ agg_output (checked by harness/vf/src_agg.py:
+   the parts are exactly the statements of the else-branch, in order) = Exec.exec_rows q table for q_group q = Some g. *)
